@@ -9,6 +9,7 @@ import CBV.Model.C07
 import CBV.Lemmas.C07
 import CBV.Lemmas.C07Face
 import CBV.Lemmas.C07Vertex
+import CBV.Lemmas.C07Build
 import Mathlib.Tactic.Ring
 import Mathlib.Tactic.Linarith
 import Mathlib.Algebra.Order.Field.Rat
@@ -633,6 +634,230 @@ example :
     a.edges.length = 2 ∧ ⟨3, 7, exA⟩ ∈ a.edges ∧ ⟨2, 1, exP⟩ ∈ a.edges ∧
       ((a.wires.take 12).filter (fun w => w.same ⟨2, 1, exP⟩)) = [⟨2, 1, exP⟩] ∧
       ((a.wires.drop 12).filter (fun w => w.same ⟨2, 1, exP⟩)) = [⟨2, 1, exP⟩] := by
+  decide +kernel
+
+
+/-! ### entry points: how edge data get onto faces and operations (round 5) -/
+
+/-- **`Face.add_edge`**: refuses exactly the corners outside 0..3; otherwise puts the datum (`None` →
+    a line) on that corner and leaves every other corner as it was -/
+theorem T_C07_add_edge (es : List Datum) (c : Int) (d : Option Datum) :
+    (faceAddEdge es c d = none ↔ (c < 0 ∨ c > 3)) ∧
+    ∀ es', faceAddEdge es c d = some es' →
+      es'.length = es.length ∧
+      (c.toNat < es.length → es'.getD c.toNat lineDatum = d.getD lineDatum) ∧
+      ∀ i, i ≠ c.toNat → es'.getD i lineDatum = es.getD i lineDatum := by
+  refine ⟨faceAddEdge_none_iff es c d, ?_⟩
+  intro es' h
+  obtain ⟨_, _, rfl⟩ := faceAddEdge_some h
+  refine ⟨by simp, ?_, ?_⟩
+  · intro hlt; rw [getD_set_of_lt _ _ _ _ hlt]; simp
+  · intro i hi
+    simp only [List.getD_eq_getElem?_getD, List.getElem?_set]
+    have : ¬ c.toNat = i := fun e => hi e.symm
+    simp [this]
+
+/-- **`Face(points, edges)`**: without `edges` four lines; with exactly four entries each entry is
+    the datum of its corner (`None` → line); any other number of entries is refused -/
+theorem T_C07_face_init :
+    faceInitEdges none = some [lineDatum, lineDatum, lineDatum, lineDatum] ∧
+    (∀ a b c d : Option Datum, faceInitEdges (some [a, b, c, d]) =
+      some [a.getD lineDatum, b.getD lineDatum, c.getD lineDatum, d.getD lineDatum]) ∧
+    (∀ l : List (Option Datum), l.length ≠ 4 → faceInitEdges (some l) = none) := by
+  refine ⟨rfl, fun a b c d => rfl, ?_⟩
+  intro l hl
+  simp [faceInitEdges, hl]
+
+/-- **`Operation.add_side_edge`**: refuses exactly the indices outside 0..3; otherwise puts the datum
+    on that side edge and leaves the others -/
+theorem T_C07_add_side_edge (es : List Datum) (i : Int) (d : Datum) :
+    (addSideEdge es i d = none ↔ (i < 0 ∨ i > 3)) ∧
+    ∀ es', addSideEdge es i d = some es' →
+      es'.length = es.length ∧ (i.toNat < es.length → es'.getD i.toNat lineDatum = d) ∧
+      ∀ j, j ≠ i.toNat → es'.getD j lineDatum = es.getD j lineDatum := by
+  constructor
+  · unfold addSideEdge; split <;> simp_all
+  · intro es' h
+    obtain ⟨_, _, rfl⟩ := addSideEdge_some h
+    refine ⟨by simp, ?_, ?_⟩
+    · intro hlt; rw [getD_set_of_lt _ _ _ _ hlt]; simp
+    · intro j hj
+      simp only [List.getD_eq_getElem?_getD, List.getElem?_set]
+      have : ¬ i.toNat = j := fun e => hj e.symm
+      simp [this]
+
+/-- **`Face.remove_edges` as coded now (through `add_edge`)**: when it does not raise, exactly the listed
+    corners read as lines and all others keep their datum; the empty list changes nothing -/
+theorem T_C07_remove_edges_calls (es es' : List Datum) (cs : Option (List Int))
+    (h : faceRemoveEdges es cs = some es') :
+    es'.length = es.length ∧
+    ∀ i, es'.getD i lineDatum = if (i : Int) ∈ cs.getD [0, 1, 2, 3] then lineDatum else es.getD i lineDatum := by
+  exact ⟨(faceRemove_getD _ es es' h 0).1, fun i => (faceRemove_getD _ es es' h i).2⟩
+
+example (es : List Datum) : faceRemoveEdges es (some []) = some es := rfl
+example : faceRemoveEdges [exSpline, exArc, lineDatum, exSpline] (some [1, -1]) = none := by decide +kernel
+example : faceRemoveEdges [exSpline, exArc, lineDatum, exSpline] none = some fourLines := by decide +kernel
+
+/-- the slot `(w, c)` of an operation under construction: `w` = 0 bottom face, 1 top face, 2 side -/
+def Build.slot (b : Build) (w c : Nat) : Datum :=
+  (match w with | 0 => b.bottom | 1 => b.top | _ => b.side).getD c lineDatum
+
+/-- what a call writes to slot `(w, c)`, if it touches it -/
+def Call.writes (q : Call) (w c : Nat) : Option Datum :=
+  match q with
+  | .addEdge top k d => if w = (if top then 1 else 0) ∧ k = (c : Int) then some (d.getD lineDatum) else none
+  | .removeEdges top cs =>
+      if w = (if top then 1 else 0) ∧ (c : Int) ∈ cs.getD [0, 1, 2, 3] then some lineDatum else none
+  | .addSide k d => if w = 2 ∧ k = (c : Int) then some d else none
+
+/-- both faces and the side list have four entries -/
+def Build.WF (b : Build) : Prop := b.bottom.length = 4 ∧ b.top.length = 4 ∧ b.side.length = 4
+
+theorem Build.apply_spec {b b' : Build} {q : Call} (hwf : b.WF) (h : b.apply q = some b') (w c : Nat)
+    (hw : w < 3) (_hc : c < 4) :
+    b'.WF ∧ b'.slot w c = (q.writes w c).getD (b.slot w c) := by
+  obtain ⟨hb, ht, hs⟩ := hwf
+  have hw3 : w = 0 ∨ w = 1 ∨ w = 2 := by omega
+  cases q with
+  | addEdge top k d =>
+    cases top <;> simp only [Build.apply, Option.map_eq_some_iff] at h <;> obtain ⟨es, he, rfl⟩ := h <;>
+      obtain ⟨h0, h3, rfl⟩ := faceAddEdge_some he <;>
+      refine ⟨⟨by simp [hb], by simp [ht], hs⟩, ?_⟩ <;>
+      rcases hw3 with rfl | rfl | rfl <;>
+      simp only [Build.slot, Call.writes, Bool.false_eq_true, if_false, if_true] <;>
+      first
+        | (rw [getD_set_of_lt _ _ _ _ (by omega)]
+           have e1 : (c = k.toNat) ↔ (k = (c : Int)) := by omega
+           simp only [e1]
+           by_cases hk : k = (c : Int) <;> simp [hk])
+        | simp
+  | removeEdges top cs =>
+    cases top <;> simp only [Build.apply, Option.map_eq_some_iff] at h <;> obtain ⟨es, he, rfl⟩ := h <;>
+      obtain ⟨hl, hg⟩ := T_C07_remove_edges_calls _ _ _ he <;>
+      refine ⟨⟨by simp [hl, hb], by simp [hl, ht], hs⟩, ?_⟩ <;>
+      rcases hw3 with rfl | rfl | rfl <;>
+      simp only [Build.slot, Call.writes, Bool.false_eq_true, if_false, if_true] <;>
+      first
+        | (rw [hg c]; by_cases hm : (c : Int) ∈ cs.getD [0, 1, 2, 3] <;> simp [hm])
+        | simp
+  | addSide k d =>
+    simp only [Build.apply, Option.map_eq_some_iff] at h
+    obtain ⟨es, he, rfl⟩ := h
+    obtain ⟨h0, h3, rfl⟩ := addSideEdge_some he
+    refine ⟨⟨hb, ht, by simp [hs]⟩, ?_⟩
+    rcases hw3 with rfl | rfl | rfl <;> simp only [Build.slot, Call.writes]
+    · simp
+    · simp
+    · rw [getD_set_of_lt _ _ _ _ (by omega)]
+      have e1 : (c = k.toNat) ↔ (k = (c : Int)) := by omega
+      simp only [e1]
+      by_cases hk : k = (c : Int) <;> simp [hk]
+
+theorem Build.run_wf {b b' : Build} {calls : List Call} (hwf : b.WF) (h : List.foldlM Build.apply b calls = some b') :
+    b'.WF := by
+  induction calls generalizing b with
+  | nil => simp only [List.foldlM_nil, Option.pure_def, Option.some.injEq] at h; subst h; exact hwf
+  | cons q qs ih =>
+    simp only [List.foldlM_cons, Option.bind_eq_bind] at h
+    cases h1 : b.apply q with
+    | none => rw [h1] at h; cases h
+    | some b1 =>
+      rw [h1] at h
+      exact ih (Build.apply_spec hwf h1 0 0 (by decide) (by decide)).1 h
+
+theorem Build.run_untouched {b b' : Build} {calls : List Call} (hwf : b.WF) (h : b.run calls = some b')
+    (w c : Nat) (hw : w < 3) (hc : c < 4) (hn : ∀ q ∈ calls, q.writes w c = none) :
+    b'.WF ∧ b'.slot w c = b.slot w c := by
+  induction calls generalizing b with
+  | nil => simp only [Build.run, List.foldlM_nil, Option.pure_def, Option.some.injEq] at h; subst h; exact ⟨hwf, rfl⟩
+  | cons q qs ih =>
+    simp only [Build.run, List.foldlM_cons, Option.bind_eq_bind] at h
+    cases h1 : b.apply q with
+    | none => rw [h1] at h; cases h
+    | some b1 =>
+      rw [h1] at h
+      obtain ⟨hwf1, hs1⟩ := Build.apply_spec hwf h1 w c hw hc
+      obtain ⟨hwf', hs'⟩ := ih hwf1 h (fun q' hq' => hn q' (List.mem_cons_of_mem _ hq'))
+      rw [hn q List.mem_cons_self] at hs1
+      exact ⟨hwf', by rw [hs', hs1]; rfl⟩
+
+/-- **the datum of a slot is the last one the user put there**: in any history of `add_edge` /
+    `remove_edges` / `add_side_edge` calls that does not raise, a slot holds what the last call that
+    touched it wrote (the datum given, or a line for `None` / a removal) … -/
+theorem T_C07_last_write (b b' : Build) (pre post : List Call) (q : Call) (hwf : b.WF)
+    (h : b.run (pre ++ q :: post) = some b') (w c : Nat) (hw : w < 3) (hc : c < 4) (v : Datum)
+    (hq : q.writes w c = some v) (hpost : ∀ p ∈ post, p.writes w c = none) :
+    b'.slot w c = v := by
+  simp only [Build.run, List.foldlM_append, List.foldlM_cons, Option.bind_eq_bind] at h
+  cases h1 : List.foldlM Build.apply b pre with
+  | none => rw [h1] at h; cases h
+  | some b1 =>
+    rw [h1] at h
+    simp only [Option.bind_some] at h
+    have hwf1' : b1.WF := Build.run_wf hwf h1
+    cases h2 : b1.apply q with
+    | none => rw [h2] at h; cases h
+    | some b2 =>
+      rw [h2] at h
+      obtain ⟨hwf2, hs2⟩ := Build.apply_spec hwf1' h2 w c hw hc
+      obtain ⟨_, hs'⟩ := Build.run_untouched (calls := post) hwf2 h w c hw hc hpost
+      rw [hs', hs2, hq]; rfl
+
+/-- … and a slot no call touched holds what the constructors put there (the `edges` entry of
+    `Face(points, edges)`, a line on the sides) -/
+theorem T_C07_untouched (b b' : Build) (calls : List Call) (hwf : b.WF) (h : b.run calls = some b')
+    (w c : Nat) (hw : w < 3) (hc : c < 4) (hn : ∀ q ∈ calls, q.writes w c = none) :
+    b'.slot w c = b.slot w c :=
+  (Build.run_untouched hwf h w c hw hc hn).2
+
+/-- non-vacuity: a face made with a spline on corner 3, a later `add_edge(3, None)`, a side arc added,
+    replaced, and `remove_edges([])` on the top face -/
+example :
+    buildOp (some [none, none, none, some exSpline]) none
+      [.addSide 1 exArc, .addEdge false 3 none, .addSide 1 exSpline, .removeEdges true (some []), .addEdge true 0 (some exArc)]
+      = some { bottom := fourLines, top := [exArc, lineDatum, lineDatum, lineDatum],
+               side := [lineDatum, exSpline, lineDatum, lineDatum] } ∧
+    buildOp none none [.addSide 4 exArc] = none ∧ buildOp (some [none, none, none]) none [] = none ∧
+    buildOp none none [.addEdge true (-1) (some exArc)] = none := by decide +kernel
+
+/-- **`Operation.from_series`**: the side datum of corner `i` is a line for two faces, an arc through
+    the point of the single face in between, and for more faces a spline through their points in the
+    order of the faces — i.e. listed from the bottom face to the top face, the direction slot `8+i`
+    (`i → i+4`) is written in (`T_C07_direction`) -/
+theorem T_C07_from_series (mids : List (List V3)) (tag0 i : Nat) (hi : i < 4) :
+    let d := (seriesSide mids tag0).getD i lineDatum
+    (mids = [] → d = lineDatum) ∧
+    (∀ m, mids = [m] → d.kind = .arc ∧ d.third = some (m.getD i V3.zero)) ∧
+    (2 ≤ mids.length → d.kind = .spline ∧ d.pts = mids.map (fun m => m.getD i V3.zero)) := by
+  have hi4 : i = 0 ∨ i = 1 ∨ i = 2 ∨ i = 3 := by omega
+  refine ⟨?_, ?_, ?_⟩
+  · rintro rfl; rcases hi4 with rfl | rfl | rfl | rfl <;> rfl
+  · rintro m rfl; rcases hi4 with rfl | rfl | rfl | rfl <;> exact ⟨rfl, rfl⟩
+  · intro hl
+    match mids, hl with
+    | m1 :: m2 :: ms, _ => rcases hi4 with rfl | rfl | rfl | rfl <;> exact ⟨rfl, rfl⟩
+
+/-! ### the tolerance comparisons (round 5) -/
+
+/-- **`norm < TOL` vs `norm² < TOL²`**: the code compares a Euclidean norm with TOL, the model the
+    squared norm with TOL². For every non-negative `s` with `s·s = n` (the norm, as a witness) and every
+    positive `t` the two comparisons agree — so `valid` decides exactly what `Edge.is_valid` /
+    `ArcEdgeBase.is_valid` decide in exact arithmetic; only float rounding is left to the margin of the
+    generated inputs -/
+theorem T_C07_tol_squared (s n t : Rat) (hs : 0 ≤ s) (ht : 0 < t) (hsn : s * s = n) :
+    (s < t ↔ n < t * t) ∧ (s > t ↔ n > t * t) := by
+  subst hsn
+  constructor
+  · constructor
+    · intro h; nlinarith
+    · intro h; by_contra hc; have : t ≤ s := by linarith
+      nlinarith
+  · constructor
+    · intro h; nlinarith
+    · intro h; by_contra hc; have : s ≤ t := by linarith
+      nlinarith
+
+example : (0 : Rat) ≤ 5 ∧ (5 : Rat) * 5 = V3.norm2 (⟨3, 4, 0⟩ - ⟨0, 0, 0⟩) ∧ tol2 = (1 / 10000000) * (1 / 10000000) := by
   decide +kernel
 
 end CBV.C07
